@@ -10,18 +10,24 @@ import (
 
 type ssaInstr = ssa.Instruction
 
-// inRangeLoop: the call's argument is indexed by a range-loop counter.
+// inRangeLoop: the call's last argument is an element x[i] whose index i is a
+// bare loop counter (not a field such as level.newest): the call sits in a loop over x.
 func inRangeLoop(in ssa.Instruction) bool {
 	ci, ok := in.(ssa.CallInstruction)
+	if !ok || len(ci.Common().Args) == 0 {
+		return false
+	}
+	a := ci.Common().Args[len(ci.Common().Args)-1]
+	ld, ok := a.(*ssa.UnOp)
 	if !ok {
 		return false
 	}
-	for _, a := range ci.Common().Args {
-		if strings.Contains(Term(a), "φrangeindex") {
-			return true
-		}
+	ia, ok := ld.X.(*ssa.IndexAddr)
+	if !ok {
+		return false
 	}
-	return false
+	t := Term(ia.Index)
+	return strings.Contains(t, "φ") && !strings.Contains(t, ".")
 }
 
 // loopCarried reports whether v is (or merges) a value that survives from one
@@ -46,4 +52,18 @@ func loopCarried(v ssa.Value) bool {
 		return false
 	}
 	return visit(v, map[*ssa.Phi]bool{})
+}
+
+// ifCondCall returns the call that is the (possibly negated) condition of ifi.
+func ifCondCall(ifi *ssa.If) (*ssa.Call, bool) {
+	v := ifi.Cond
+	for {
+		if u, ok := v.(*ssa.UnOp); ok {
+			v = u.X
+			continue
+		}
+		break
+	}
+	c, ok := v.(*ssa.Call)
+	return c, ok
 }
